@@ -195,6 +195,12 @@ def run(R, tier):
             n_w += 1
             who = body.npath + " " + (body.impl_self or "")
             ok = any(a in who for a in allowed[fld])
+            if not ok and body.j.get("vis") == "Restricted":
+                # a crate-private helper that only the allowed writers of this field reach (EVENt?'s read-and-clear moved
+                # into a method next to the register, say): its effect is part of their tables, which analyse it in place
+                roots = tuple(sorted({x.npath for x in uc.bodies if any(a in (x.npath + " " + (x.impl_self or "")) for a in allowed[fld])}))
+                from . import dispatch as D_
+                ok = D_.only_reached_from(P, body.npath, roots)
             R.check(ok, "R15.6", "writer:%s<-%s" % (fld, body.npath.split("::")[-1] if not body.impl_self else body.impl_self.split("::")[-1].split("<")[0] + "::" + (body.name or "")), "allowed writer", "%s writes (%s) the `%s` field: only %s may - any other store bypasses the transition latch / the command semantics" % (body.npath, kind, fld, sorted(allowed[fld])), where=line)
     R.floor("R15.6", "field writes", n_w, 5)
 
